@@ -11,4 +11,9 @@ CONSTANTS
   ExtLayouts = {"plain", "trail"}
   BoundMax = 1
   BoundLayouts = {"plain"}
+  MultiMax = 1
+  UseMultiLayouts = {"wrap-last", "fromnl-all", "tailnl-earlier"}
+  StdMax = 1
+  UseStdClasses = {"Pair", "List"}
+  StdLayouts = {"plain"}
 INVARIANTS ReadsBack
